@@ -11,7 +11,7 @@ use mccore::bits::Bits;
 use mccore::conv;
 use mccore::dispatch::{self, BinOp, CmpObs, Form};
 use mccore::kinds::*;
-use mccore::{on_any, on_kind};
+use mccore::on_any;
 use bva::{Bit, BitVector, Endianness};
 use std::hash::{Hash, Hasher};
 
